@@ -13,9 +13,14 @@
    origins owning it could be resolved and, per resolved origin, the finite script of answers
    it gives to successive replicate requests plus the number of 202 answers the poll back-off
    tolerates for that origin before it says Stop.  Theorems quantify over all environments. *)
-From Coq Require Import List NArith Bool.
+From Coq Require Import List NArith ZArith Bool.
+From K.Gen Require Import C33_consts.
 Import ListNotations.
 Local Open Scope N_scope.
+
+(* cluster_client.go:418 `serr.Status < 500`: the literal is re-extracted from the source on
+   every run (Gen/C33_consts.v); statuses below it (other than 202) end the poll *)
+Definition final_below : N := Z.to_N poll_final_below.
 
 (* What one HTTP request yields, seen from the client. *)
 Inductive resp :=
@@ -71,7 +76,7 @@ Fixpoint poll_origin (d o : N) (sc : list resp) (bud : N) : list ev * pres :=
           if c =? 202 then                                             (* :410 *)
             if bud =? 0 then ([ERepl d o r], PNext)                    (* :412-413, :427 *)
             else let '(t, p) := poll_origin d o sc' (bud - 1) in (ERepl d o r :: t, p)  (* :415-416 *)
-          else if c <? 500 then ([ERepl d o r], PDone false)           (* :418-419 *)
+          else if c <? final_below then ([ERepl d o r], PDone false)           (* :418-419 *)
           else ([ERepl d o r], PNext)                                  (* :422-423 *)
       end
   end.
